@@ -170,7 +170,9 @@ func checkC05(ctx *Ctx, r *Report, tier string) {
 		degenerateGuard(ctx, r, cf, "T6", "Triangle3")
 	}
 	degenerateTest(ctx, r, "T6", "Triangle3", 3)
-	r.floor("T6", 2)
+	equalsAtZeroTolerance(ctx, r, "T6", "v3")
+	freshPrimitivePerIteration(ctx, r, "T6", kfn, "Triangle3")
+	r.floor("T6", 4)
 	r.expectControl("T6", "verifCtlKernelNoDegenerate")
 	kf, err := analyseKernel(ctx, kfn, 3, "mcInterpolate")
 	if err != nil {
